@@ -78,9 +78,8 @@ ASSUMPTIONS = [
     "proposed_fixes/C05-s-short-single-measure.diff); one constant time signature; without ts columns a beat is taken for a "
     "quarter (documented), so the time_sigs / estimate_time forms and beat-only arrays use beat type 4; a grace note row has "
     "its main note at the same onset in the same voice (create_part documents the removal of grace notes without main note); "
-    "pickups on a grid of halves or of thirds of a beat, not of both: for a beat-only array with a negative onset of -7/6 or "
-    "-5/6 beat (float32 below the exact value) the pickup length is truncated to one division less "
-    "(proposed_fixes/C05-s-anacrusis-rounding.diff)",
+    "pickups on a grid of halves or of thirds of a beat, and of 3/2 beats on the grid of thirds (negative onsets -7/6, -5/6: "
+    "the pickup length was truncated to one division less for float32 beat-only arrays, repaired in /repo e6b4838)",
     "rest arrays: the dummy spelling columns are not compared; collapse=True is outside the statement; rest arrays of "
     "lists / groups are checked for parts with equal divisions only (no rescaling is stated for them), a one-element "
     "list may or may not prefix its ids",
@@ -1472,8 +1471,8 @@ def spaces(tier, seed):
                      mb + "; arrays of 1 row: voice column {none, present} x divisions x {1, 2}, float32 and (with a voice column) float64 beat columns"))
     tb3 = "3 rows (sorted): positions %s x durations %s, kinds {both, beat}, voice column {none, alternating}" % (
         [str(x) for x in G.INVM_START3], [str(x) for x in G.INVM_DUR3])
-    tbt = ("triplet grid, 1-2 rows: time signatures %s x pickup %s x positions %s x durations %s (thirds only: a negative "
-           "onset of a half plus a third of a beat, -7/6 or -5/6, is not enumerated, see proposed_fixes/C05-s-anacrusis-rounding.diff), "
+    tbt = ("triplet grid, 1-2 rows: time signatures %s x pickup %s x positions %s x durations %s (thirds, and a pickup of 3/2 beats: negative "
+           "onsets of a half plus a third of a beat, -7/6 and -5/6), "
            "every kind, voice column {none, alternating}" % (
                G.INVM_TS_TRIP, [str(x) for x in G.INVM_PICKUP_TRIP], [str(x) for x in G.INVM_START_TRIP], [str(x) for x in G.INVM_DUR_TRIP]))
     if tier == "quick":
